@@ -139,6 +139,9 @@ pub struct BitIter<I: Iterator<Item = u8>> {
     read_bits: usize,
     /// Total number of read bits
     total_read: usize,
+    /// Total number of bits that may be read (`usize::MAX` unless the
+    /// iterator is a window that ends inside a byte)
+    limit: usize,
 }
 
 impl From<Vec<u8>> for BitIter<std::vec::IntoIter<u8>> {
@@ -150,6 +153,7 @@ impl From<Vec<u8>> for BitIter<std::vec::IntoIter<u8>> {
             // from the underlying iterator
             read_bits: 8,
             total_read: 0,
+            limit: usize::MAX,
         }
     }
 }
@@ -163,6 +167,7 @@ impl<'a> From<&'a [u8]> for BitIter<std::iter::Copied<std::slice::Iter<'a, u8>>>
             // from the underlying iterator
             read_bits: 8,
             total_read: 0,
+            limit: usize::MAX,
         }
     }
 }
@@ -176,6 +181,7 @@ impl<I: Iterator<Item = u8>> From<I> for BitIter<I> {
             // from the underlying iterator
             read_bits: 8,
             total_read: 0,
+            limit: usize::MAX,
         }
     }
 }
@@ -184,6 +190,9 @@ impl<I: Iterator<Item = u8>> Iterator for BitIter<I> {
     type Item = bool;
 
     fn next(&mut self) -> Option<bool> {
+        if self.total_read >= self.limit {
+            return None;
+        }
         if self.read_bits < 8 {
             self.read_bits += 1;
             self.total_read += 1;
@@ -197,7 +206,7 @@ impl<I: Iterator<Item = u8>> Iterator for BitIter<I> {
 
     fn size_hint(&self) -> (usize, Option<usize>) {
         let (lo, hi) = self.iter.size_hint();
-        let adj = |n| 8 - self.read_bits + 8 * n;
+        let adj = |n| core::cmp::min(8 - self.read_bits + 8 * n, self.limit - self.total_read);
         (adj(lo), hi.map(adj))
     }
 }
@@ -231,6 +240,7 @@ impl<'a> BitIter<std::iter::Copied<std::slice::Iter<'a, u8>>> {
                 cached_byte: 0,
                 read_bits: 8,
                 total_read: 0,
+                limit: end - start,
             }
         } else {
             BitIter {
@@ -238,6 +248,7 @@ impl<'a> BitIter<std::iter::Copied<std::slice::Iter<'a, u8>>> {
                 iter,
                 read_bits,
                 total_read: 0,
+                limit: end - start,
             }
         }
     }
@@ -269,6 +280,9 @@ impl<I: Iterator<Item = u8>> BitIter<I> {
     /// Reads a byte from the iterator.
     pub fn read_u8(&mut self) -> Result<u8, EarlyEndOfStreamError> {
         debug_assert!(self.read_bits > 0);
+        if self.limit - self.total_read < 8 {
+            return Err(EarlyEndOfStreamError);
+        }
         let cached = self.cached_byte;
         self.cached_byte = self.iter.next().ok_or(EarlyEndOfStreamError)?;
         self.total_read += 8;
